@@ -24,6 +24,20 @@ type ReportFields struct {
 
 var zero = big.NewInt(0)
 
+// bounds of the Solidity types used in the schema; abi.Pack does not range check
+var (
+	maxUint192 = new(big.Int).Sub(new(big.Int).Lsh(big.NewInt(1), 192), big.NewInt(1))
+	maxInt192  = new(big.Int).Sub(new(big.Int).Lsh(big.NewInt(1), 191), big.NewInt(1))
+	minInt192  = new(big.Int).Neg(new(big.Int).Lsh(big.NewInt(1), 191))
+)
+
+func checkInt192(name string, v *big.Int) error {
+	if v.Cmp(minInt192) < 0 || v.Cmp(maxInt192) > 0 {
+		return fmt.Errorf("%s does not fit into int192 (got: %s)", name, v)
+	}
+	return nil
+}
+
 type ReportCodec struct {
 	logger logger.Logger
 	feedID common.Hash
@@ -37,22 +51,32 @@ func (r *ReportCodec) BuildReport(rf ReportFields) (ocrtypes.Report, error) {
 	var merr error
 	if rf.BenchmarkPrice == nil {
 		merr = errors.Join(merr, errors.New("benchmarkPrice may not be nil"))
+	} else {
+		merr = errors.Join(merr, checkInt192("benchmarkPrice", rf.BenchmarkPrice))
 	}
 	if rf.Bid == nil {
 		merr = errors.Join(merr, errors.New("bid may not be nil"))
+	} else {
+		merr = errors.Join(merr, checkInt192("bid", rf.Bid))
 	}
 	if rf.Ask == nil {
 		merr = errors.Join(merr, errors.New("ask may not be nil"))
+	} else {
+		merr = errors.Join(merr, checkInt192("ask", rf.Ask))
 	}
 	if rf.LinkFee == nil {
 		merr = errors.Join(merr, errors.New("linkFee may not be nil"))
 	} else if rf.LinkFee.Cmp(zero) < 0 {
 		merr = errors.Join(merr, fmt.Errorf("linkFee may not be negative (got: %s)", rf.LinkFee))
+	} else if rf.LinkFee.Cmp(maxUint192) > 0 {
+		merr = errors.Join(merr, fmt.Errorf("linkFee does not fit into uint192 (got: %s)", rf.LinkFee))
 	}
 	if rf.NativeFee == nil {
 		merr = errors.Join(merr, errors.New("nativeFee may not be nil"))
 	} else if rf.NativeFee.Cmp(zero) < 0 {
 		merr = errors.Join(merr, fmt.Errorf("nativeFee may not be negative (got: %s)", rf.NativeFee))
+	} else if rf.NativeFee.Cmp(maxUint192) > 0 {
+		merr = errors.Join(merr, fmt.Errorf("nativeFee does not fit into uint192 (got: %s)", rf.NativeFee))
 	}
 	if merr != nil {
 		return nil, merr
